@@ -399,6 +399,8 @@ func init() {
 			scs := []Scenario{
 				{Name: "gov-matrix", Cfg: c17cfg(), Alphabet: full, K: 1, D: 1, Tail: 1},
 				{Name: "gov-handover-2", Cfg: c17cfg(), Alphabet: small, K: 2, D: 2, Tail: 0},
+				// the hand-over and the next message in the SAME block (the new list binds at once)
+				{Name: "gov-handover-same-block", Cfg: c17cfg(), Alphabet: c17sameBlock(small), K: 1, D: 1, Tail: 1},
 			}
 			if tier == "thorough" {
 				scs = append(scs, Scenario{Name: "gov-handover-2-full", Cfg: c17cfg(), Alphabet: full, K: 2, D: 2},
@@ -409,10 +411,37 @@ func init() {
 		Run: func(sc *Scenario, blocks []chain.Block) HistResult {
 			return RunGovHistory(sc.Cfg, sc.Prelude, blocks)
 		},
-		Rule:   "matrix (depth 1): every parameter key (17 registered + 5 unregistered/ill-formed + 4 with a third path element) x sender (owner, owner of another parameter, DAO owner, stranger) x value (new, identical, malformed JSON, wrong type, empty), MsgUpgrade x sender, DAO transfer/burn/unknown action x sender x amount (-1, 0, 1, balance, balance+1); hand-over histories (depth 2-3): all pairs/triples of these transactions in consecutive blocks (ACL and DAO ownership change hands in between); non-trivial = a governance message succeeded",
+		Rule:   "matrix (depth 1): every parameter key (17 registered + 5 unregistered/ill-formed + 4 with a third path element) x sender (owner, owner of another parameter, DAO owner, stranger) x value (new, identical, malformed JSON, wrong type, empty), MsgUpgrade x sender, DAO transfer/burn/unknown action x sender x amount (-1, 0, 1, balance, balance+1); hand-over histories (depth 2-3): all pairs/triples of these transactions in consecutive blocks (ACL and DAO ownership change hands in between), and every message of the reduced alphabet directly after each of 3 hand-overs in the same block; non-trivial = a governance message succeeded",
 		QuickS: 240, ThoroughS: 1500,
 		Assume: []string{"the oracle reads the ACL and DAO owner from the raw params store before each message", "a chain halt caused by an authorised but ill-advised parameter value is not an authorisation failure and ends the history without a verdict"},
 	})
+}
+
+// c17sameBlock: blocks of two transactions, an ownership hand-over (ACL replaced / DAO owner
+// replaced / parameter handed to a stranger) followed by one message of the alphabet.
+func c17sameBlock(alpha []Choice) []Choice {
+	vals := c17values()
+	heads := []chain.TxSpec{
+		{Msg: "change_param", From: gOwner, Key: "gov/acl", Val: vals["gov/acl"][0]},
+		{Msg: "change_param", From: gOwner, Key: "gov/daoOwner", Val: vals["gov/daoOwner"][0]},
+	}
+	// an ACL that takes everything away from the current owner
+	acl3 := govTypes.ACL(make([]govTypes.ACLPair, 0))
+	for _, k := range chain.AllParamKeys {
+		acl3.SetOwner(k, chain.Addr(gStranger))
+	}
+	heads = append(heads, chain.TxSpec{Msg: "change_param", From: gOwner, Key: "gov/acl", Val: mj(acl3)})
+	var cs []Choice
+	for hi, h := range heads {
+		for _, c := range alpha {
+			if len(c.Block.Events) != 1 || c.Block.Events[0].Tx == nil {
+				continue
+			}
+			h := h
+			cs = append(cs, multiB(fmt.Sprintf("[handover#%d(%s); %s]", hi, h.Key, c.Label), txE(h), c.Block.Events[0]))
+		}
+	}
+	return cs
 }
 
 // c17handover: reduced alphabet for depth-3 ownership hand-overs.
